@@ -132,6 +132,32 @@ Definition defaults_eqb (a b : defaults) : bool :=
   && (d_rx_delay1 a =? d_rx_delay1 b) && (d_rx_delay2 a =? d_rx_delay2 b)
   && (d_ja_delay1 a =? d_ja_delay1 b) && (d_ja_delay2 a =? d_ja_delay2 b).
 
+Definition pair_eqb_zz (a b : Z * Z) : bool := (fst a =? fst b) && (snd a =? snd b).
+
+(* decidable equality of whole configurations (the deprecated band names must give the same
+   object as their common name; soundness: Band/AliasProofs.v) *)
+Definition size_table_eqb (a b : size_table) : bool :=
+  list_eqb (fun x y => (fst x =? fst y) && pair_eqb_zz (snd x) (snd y)) a b.
+Definition maxpl_eqb (a b : maxpl_table) : bool :=
+  list_eqb (fun x y => String.eqb (fst x) (fst y)
+                       && list_eqb (fun u v => String.eqb (fst u) (fst v) && size_table_eqb (snd u) (snd v))
+                                   (snd x) (snd y)) a b.
+Definition tables_eqb (a b : tables) : bool :=
+  Bool.eqb (t_extra a) (t_extra b) && (t_cfmin a =? t_cfmin b) && (t_cfmax a =? t_cfmax b)
+  && list_eqb (fun x y => (fst x =? fst y) && data_rate_eqb (snd x) (snd y)) (t_drs a) (t_drs b)
+  && maxpl_eqb (t_maxpl a) (t_maxpl b)
+  && list_eqb (fun x y => (fst x =? fst y) && list_eqb Z.eqb (snd x) (snd y)) (t_rx1 a) (t_rx1 b)
+  && list_eqb channel_eqb (t_up a) (t_up b) && list_eqb channel_eqb (t_down a) (t_down b)
+  && list_eqb Z.eqb (t_txpow a) (t_txpow b).
+(* everything but the name passed to GetConfig *)
+Definition cfg_body_eqb (a b : band_cfg) : bool :=
+  Bool.eqb (c_rep a) (c_rep b) && Bool.eqb (c_dwell a) (c_dwell b) && kind_eqb (c_kind a) (c_kind b)
+  && Bool.eqb (c_dwell400 a) (c_dwell400 b) && (c_freq_off a =? c_freq_off b)
+  && String.eqb (c_bname a) (c_bname b) && defaults_eqb (c_defaults a) (c_defaults b)
+  && tables_eqb (c_tab a) (c_tab b).
+Definition with_name (c : band_cfg) (name : string) : band_cfg :=
+  mkCfg name (c_rep c) (c_dwell c) (c_kind c) (c_dwell400 c) (c_freq_off c) (c_bname c) (c_defaults c) (c_tab c).
+
 Fixpoint zrange_from (lo : Z) (n : nat) : list Z :=
   match n with
   | O => []
